@@ -59,8 +59,8 @@ theorem extField_wf {v nib : Nat} {ext : Bytes} (h : ExtField v nib ext) : ext.w
   | ext8 h => intro x hx; simp at hx; omega
   | ext16 h0 h1 => intro x hx; simp at hx; omega
 
-/-- the relation is functional in the value: one value, one minimal writer output, but the
-reader accepts every representation -/
+/-- whatever the reader accepts (from a 4-bit field and actual bytes) is an RFC extended field
+of the value it returns, and the reader consumed exactly its extension bytes -/
 theorem readExt_extField {nib : Nat} {raw rest : Bytes} {v : Nat} (hw : raw.wf)
     (h : readExt nib raw = some (v, rest)) : ∃ ext, raw = ext ++ rest ∧ ExtField v nib ext := by
   unfold readExt at h
